@@ -32,6 +32,7 @@ type Config struct {
 	Samples       int // completed paths kept for native validation
 	Deadline      time.Time
 	Debug         bool
+	KeepPerSite   int
 }
 
 type WorkItem struct {
@@ -121,6 +122,9 @@ func NewExplorer(prog *ssa.Program, pkg *ssa.Package, fn *ssa.Function, cfg Conf
 	}
 	if cfg.Samples == 0 {
 		cfg.Samples = 8
+	}
+	if cfg.KeepPerSite == 0 {
+		cfg.KeepPerSite = 3
 	}
 	ex := &Explorer{cfg: cfg, prog: prog, pkg: pkg, fn: fn}
 	ex.cond = sync.NewCond(&ex.mu)
@@ -243,7 +247,7 @@ func (ex *Explorer) addViolation(in *Interp, site string, m Model, known string)
 	defer ex.mu.Unlock()
 	key := site + "|" + known
 	ex.res.ViolCount[key]++
-	if ex.res.ViolCount[key] > 3 {
+	if ex.res.ViolCount[key] > ex.cfg.KeepPerSite {
 		return
 	}
 	ex.res.Violations = append(ex.res.Violations, Violation{Site: site, Known: known, Inputs: modelInputs(in, m), PathLen: len(in.path)})
@@ -473,7 +477,7 @@ func (ex *Explorer) runPath(in *Interp, it WorkItem, reinit bool) {
 				}
 			}()
 			in.needModel()
-			in.reportViolation("nonterm:"+end.msg, in.model, nil)
+			in.reportViolation("nonterm:loop-budget", in.model, nil)
 		}()
 	case "deadlock":
 		func() {
